@@ -47,6 +47,10 @@ impl<'info, T> Account<'info, T> {
 }
 /// the address of an account wrapper, as a spec function (used by the generated constraints_<Struct> predicates)
 pub trait SKey { spec fn skey(&self) -> Pubkey; }
+/// program-derived addresses (K6): one seed of a `seeds = [..]` attribute - a byte-string literal (its bytes as a big-endian number), an account key, an
+/// integer's little-endian bytes, an integer's decimal text - and the address derived from a seed list under the whirlpool program id (uninterpreted)
+pub enum Seed { Lit(int), Key(Pubkey), Le(int), Dec(int) }
+pub uninterp spec fn pda_of(seeds: Seq<Seed>) -> Pubkey;
 /// the program that owns an account (AccountInfo::owner), as a spec function
 pub trait SOwner { spec fn sowner(&self) -> Pubkey; }
 impl<T: SOwner> SOwner for Box<T> { open spec fn sowner(&self) -> Pubkey { (**self).sowner() } }
